@@ -23,7 +23,8 @@ VARIABLES known,      \* expansions asserted so far
           hist
 
 nvars == <<known, stored, hist>>
-nview == <<known, stored>>
+\* (the bit: a restart changes nothing else; without it a restart would only ever END a sequence)
+nview == <<known, stored, IF hist = <<>> THEN FALSE ELSE hist[Len(hist)].a = "restart">>
 
 U == 1..Len(UriSeq)
 Log(r) == hist' = Append(hist, r)
